@@ -213,6 +213,9 @@ def parse_primary(p, no_struct):
         return ("paren", e)
     if v == "|":  # closure: only `|x| ..` forms we do not need → refuse
         raise TranslateError("sign.rs: closures are outside the translated subset")
+    if k == "id" and v in ("true", "false"):
+        p.next()
+        return ("bool", v == "true")
     if k == "id":
         path = [p.next()]
         while p.at("::"):
@@ -345,6 +348,14 @@ def parse_stmt(p):
                 body = ("block", parse_block(p))
                 if p.at(","):
                     p.next()
+            elif p.at("return") or p.at("break"):
+                kw = p.next()
+                if kw == "break":
+                    body = ("block", [("break",)])
+                else:
+                    body = ("block", [("return", parse_expr(p))])
+                if p.at(","):
+                    p.next()
             else:
                 body = ("expr", parse_expr(p))
                 if p.at(","):
@@ -375,6 +386,12 @@ def parse_stmt(p):
         e = parse_expr(p)
         p.eat(";")
         return ("return", e)
+    if p.kind() == "id" and p.peek(1) == "=" and p.peek(2) != "=":
+        name = p.next()
+        p.next()
+        e = parse_expr(p)
+        p.eat(";")
+        return ("assign", name, e)
     if p.kind() == "id" and p.peek(1) == "+=":
         name = p.next()
         p.next()
@@ -440,12 +457,13 @@ def parse_methods(src):
 # ---------------------------------------------------------------------------------------------
 
 class Env:
-    def __init__(self, vals=None, consts=None):
+    def __init__(self, vals=None, consts=None, bools=None):
         self.vals = dict(vals or {})      # rust local → lean text
         self.consts = dict(consts or {})  # rust const → int
+        self.bools = set(bools or ())     # rust locals of type bool
 
     def copy(self):
-        return Env(self.vals, self.consts)
+        return Env(self.vals, self.consts, self.bools)
 
 
 def lean_name(rust):
@@ -534,6 +552,8 @@ class Translator:
         raise TranslateError("sign.rs: not a natural-number expression: %r" % (e,))
 
     def msg(self, e, env):
+        if e[0] == "path" and len(e[1]) == 1 and e[1][0] in env.vals and env.vals[e[1][0]].startswith("(."):
+            return env.vals[e[1][0]]
         if e[0] != "call" or e[1][0] != "path" or len(e[1][1]) != 2 or e[1][1][0] != "Message":
             raise TranslateError("sign.rs: not a Message constructor: %r" % (e,))
         name, args = e[1][1][1], e[2]
@@ -564,6 +584,10 @@ class Translator:
     def cond(self, e, env):
         if e[0] == "paren":
             return "(" + self.cond(e[1], env) + ")"
+        if e[0] == "not" and e[1][0] == "path" and len(e[1][1]) == 1 and e[1][1][0] in env.bools:
+            return "%s = false" % env.vals[e[1][1][0]]
+        if e[0] == "path" and len(e[1]) == 1 and e[1][0] in env.bools:
+            return "%s = true" % env.vals[e[1][0]]
         if e[0] == "bin" and e[1] == "&&":
             return "%s ∧ %s" % (self.cond(e[2], env), self.cond(e[3], env))
         if e[0] == "bin" and e[1] == "||":
@@ -601,34 +625,60 @@ class Translator:
                 conj.append(g)
         flatten(guard)
         alts = []
+        used_all = None
         for pat in pats:
             used = set()
+            if pat == ("ppath", ["None"]):
+                alts.append("%s = none" % scrut_var)
+                used_all = used if used_all is None else used_all
+                continue
             if not (pat[0] == "pctor" and pat[1] == ["Some"] and len(pat[2]) == 1):
                 raise TranslateError("sign.rs: unsupported reply pattern %r" % (pat,))
             inner = pat[2][0]
             if not (inner[0] == "pctor" and inner[1] == ["Message", "ReportState"] and len(inner[2]) == 2):
                 raise TranslateError("sign.rs: unsupported reply pattern %r" % (inner,))
             apat, spat = inner[2]
-            # address: a binding constrained by `binding == self.address`
-            if apat[0] != "pbind":
+            if apat[0] == "pbind":
+                # a binding constrained by `binding == self.address`
+                want = ("bin", "==", ("path", [apat[1]]), ("field", ("path", ["self"]), "address"))
+                if want not in conj:
+                    raise TranslateError("sign.rs: reply pattern binds the address without comparing it to self.address")
+                used.add(conj.index(want))
+                probe = "ownReport? a %s" % scrut_var
+                lit = lambda st: "%s = some (.reportState a %s)" % (scrut_var, st)
+            elif apat == ("pwild",):
+                probe = "anyReport? %s" % scrut_var
+                lit = lambda st: "anyReport? %s = some %s" % (scrut_var, st)
+            else:
                 raise TranslateError("sign.rs: unsupported address pattern %r" % (apat,))
-            want = ("bin", "==", ("path", [apat[1]]), ("field", ("path", ["self"]), "address"))
-            if want not in conj:
-                raise TranslateError("sign.rs: reply pattern binds the address without comparing it to self.address")
-            used.add(conj.index(want))
             if spat[0] == "ppath" and len(spat[1]) == 2 and spat[1][0] == "State" and spat[1][1] in STATES:
-                alts.append("%s = some (.reportState a .%s)" % (scrut_var, lc(spat[1][1])))
+                alts.append(lit("." + lc(spat[1][1])))
             elif spat[0] == "pbind":
-                idx = [i for i, g in enumerate(conj) if g[0] == "bin" and g[1] == "==" and g[2] == ("path", [spat[1]])]
+                def state_test(g):
+                    """g is `state == E` or a parenthesised disjunction of such tests"""
+                    if g[0] == "paren":
+                        return state_test(g[1])
+                    if g[0] == "bin" and g[1] == "||":
+                        l, r = state_test(g[2]), state_test(g[3])
+                        return None if l is None or r is None else "(%s ∨ %s)" % (l, r)
+                    if g[0] == "bin" and g[1] == "==" and g[2] == ("path", [spat[1]]):
+                        return "%s = some %s" % (probe, self.state_or_var(g[3], env))
+                    return None
+                idx = [i for i, g in enumerate(conj) if state_test(g) is not None]
                 if len(idx) != 1:
-                    raise TranslateError("sign.rs: reply pattern binds the state without exactly one comparison")
+                    raise TranslateError("sign.rs: reply pattern binds the state without exactly one test of it")
                 used.add(idx[0])
-                alts.append("ownReport? a %s = some %s" % (scrut_var, self.state_or_var(conj[idx[0]][3], env)))
+                alts.append(state_test(conj[idx[0]]))
+            elif spat == ("pwild",):
+                alts.append("(%s).isSome = true" % probe)
             else:
                 raise TranslateError("sign.rs: unsupported state pattern %r" % (spat,))
-            if used != set(range(len(conj))):
-                raise TranslateError("sign.rs: guard has conjuncts the translator does not understand")
-        return alts[0] if len(alts) == 1 else "(" + " ∨ ".join(alts) + ")"
+            if used_all is not None and used != used_all:
+                raise TranslateError("sign.rs: alternatives of one arm use the guard differently")
+            used_all = used
+        main = alts[0] if len(alts) == 1 else "(" + " ∨ ".join(alts) + ")"
+        extra = [self.cond(g, env) for i, g in enumerate(conj) if i not in (used_all or set())]
+        return " ∧ ".join([main] + extra)
 
     # ---- statements, continuation-passing
     def ret_value(self, e, env):
@@ -708,16 +758,24 @@ class Translator:
                 return ".send %s fun %s =>\n%s" % (self.msg(e[1][3][0], env), name, indent(self.tr(rest, env2, ctx)))
             env2 = env.copy()
             if mutable:
-                if e[0] != "num":
+                if e[0] == "num":
+                    env2.vals[name] = str(e[1])
+                elif e[0] == "bool":
+                    env2.vals[name] = "true" if e[1] else "false"
+                    env2.bools.add(name)
+                else:
                     raise TranslateError("sign.rs: unsupported mutable local initialiser")
-                env2.vals[name] = str(e[1])
                 env2.consts.pop(name, None)
                 return self.tr(rest, env2, dict(ctx, muts=ctx.get("muts", []) + [name]))
-            # pure bindings: byte slices / data iterators, resolved lazily by use
-            try:
-                env2.vals[name] = self.bytes_(e, env)
-            except TranslateError:
-                env2.vals[name] = self.items(e, env)
+            # pure bindings: byte slices, data iterators, (optional) messages
+            for f in (self.bytes_, self.items, self.optmsg, self.msg):
+                try:
+                    env2.vals[name] = f(e, env)
+                    break
+                except TranslateError:
+                    continue
+            else:
+                raise TranslateError("sign.rs: unsupported let binding of %s" % name)
             return self.tr(rest, env2, ctx)
         if k == "addassign":
             if s[2] != ("num", 1) or s[1] not in env.vals:
@@ -748,7 +806,22 @@ class Translator:
             e = s[1]
             if e[0] == "call" and e[1] == ("path", ["Err"]) and len(e[2]) == 1 and e[2][0] == ("struct", ["SignError", "UnexpectedResponse"]):
                 return ".fail"
+            plain = {kk: vv for kk, vv in ctx.items() if kk not in ("break_k", "loop_end")}
+            v = self.ret_value(e, env)
+            if v is not None:
+                return ".done %s" % v
+            if e[0] == "method" and e[1] == ("path", ["self"]):
+                return self.tail_call(e, env, plain)
+            if e[0] == "call" and e[1] == ("path", ["verify_response"]) and len(e[2]) == 2:
+                return "if %s = %s then .done () else .fail" % (self.optmsg(e[2][1], env), self.optmsg(e[2][0], env))
             raise TranslateError("sign.rs: unsupported return")
+        if k == "assign":
+            name, e = s[1], s[2]
+            if name in env.bools and e[0] == "bool":
+                env2 = env.copy()
+                env2.vals[name] = "true" if e[1] else "false"
+                return self.tr(rest, env2, ctx)
+            raise TranslateError("sign.rs: unsupported assignment to %s" % name)
         if k == "break":
             if "break_k" not in ctx:
                 raise TranslateError("sign.rs: break outside a loop")
@@ -760,6 +833,9 @@ class Translator:
             return "if %s then\n%s\nelse\n%s" % (c, indent(a), indent(b))
         if k == "match":
             scrut = s[1]
+            if scrut[0] == "try" and scrut[1][0] == "method" and scrut[1][1] == ("path", ["self"]) and scrut[1][2] == "send_message" and len(scrut[1][3]) == 1:
+                tmp = "reply%d" % len(env.vals)
+                return self.tr([("let", ("pbind", tmp), False, scrut), ("match", ("path", [tmp]), s[2])] + rest, env, ctx)
             if not (scrut[0] == "path" and len(scrut[1]) == 1 and scrut[1][0] in env.vals):
                 raise TranslateError("sign.rs: match on something other than a bound reply")
             sv = env.vals[scrut[1][0]]
@@ -845,7 +921,7 @@ class Translator:
             env_in.vals[m] = m
         inner_ctx = dict(ctx, break_k=break_k, loop_end=loop_end)
         body_text = self.tr(body, env_in, inner_ctx)
-        binder = self.binders(self.cur) + "".join(" (%s : Nat)" % m for m in muts)
+        binder = self.binders(self.cur) + "".join(" (%s : %s)" % (m, "Bool" if m in env.bools else "Nat") for m in muts)
         self.aux.append("def %s %s : Nat → Prog %s\n  | 0 => .outOfFuel\n  | fuel + 1 =>\n%s\n" % (name, binder, self.cur_ret, indent(body_text, 4)))
         return "%s %s%s fuel" % (name, param_names, "".join(" " + env.vals[m] for m in muts))
 
